@@ -81,6 +81,40 @@ func LCSites(rc *RC) (map[string]string, map[string][]ir.Path) {
 	return sites, paths
 }
 
+var lcTwoTensor = regexp.MustCompile(`#(copyDense|copyDenseSliced|copyArray|copyArraySliced)\d+$`)
+
+var lcAPTransfer = regexp.MustCompile(`\.AP = |\.setAP\(|\.CloneTo\(|\.AP\.o = |\.o = |\.SetAP\(|\.copyMetadata\(`)
+
+// lcOrderEstablished: the path carries a positive same-order test, a row-major test of an
+// operand, or a statement handing an access pattern / data order to a tensor.
+func lcOrderEstablished(p ir.Path) bool {
+	f := pathG(p)
+	for _, fm := range f {
+		for _, a := range fm.Atoms() {
+			atom := ir.BAtom(a)
+			switch {
+			case strings.Contains(a, "HasSameOrder("), strings.HasSuffix(a, ".IsRowMajor()"):
+				if ir.Implies(f, atom) {
+					return true
+				}
+			case strings.HasSuffix(a, ".IsColMajor()"):
+				if ir.Implies(f, ir.BNot(atom)) {
+					return true
+				}
+			}
+		}
+	}
+	for _, st := range p.Steps {
+		if st.Kind == "if" || st.Kind == "loop" || st.Kind == "range" || st.Kind == "switch" || st.Kind == "case" {
+			continue
+		}
+		if lcAPTransfer.MatchString(stripFuncLits(st.Head)) {
+			return true
+		}
+	}
+	return false
+}
+
 func containsNode(root, n *ir.Node) bool {
 	for _, k := range flatten([]*ir.Node{root}) {
 		if k == n {
@@ -130,6 +164,16 @@ func LC(rc *RC, floor int) {
 			if !guarded {
 				bad = fmt.Sprintf("reached with [%s]: no branch established that a tensor needs no iterator (data-order and contiguity flags do not exclude lazy transposes or masks)", strings.Join(p.Guards, " && "))
 				break
+			}
+		}
+		if bad == "" && lcTwoTensor.MatchString(k) {
+			// second clause for tensor-to-tensor copies: storage order is copied verbatim, so
+			// destination and source must be known to share a data order on every path
+			for _, p := range ps {
+				if !lcOrderEstablished(p) {
+					bad = fmt.Sprintf("reached with [%s]: nothing on the path relates the data order of the destination to that of the source (same-order test, row-major test of the source before a fresh destination, or the destination taking the source's access pattern); a storage-order copy between a column-major and a row-major tensor permutes the elements", strings.Join(p.Guards, " && "))
+					break
+				}
 			}
 		}
 		if bad != "" {
